@@ -56,7 +56,7 @@ let cep_row kind (e : cepst) cl =
             else if kind = "cepmeas" && e.c_lastp then `Panic   (* MEASURES panics: the match stays open *)
             else (e.c_open <- false; `Report)
 
-(* does Stop's flush make MEASURES panic (finding F57: the panic escapes Stop)? *)
+(* does Stop's flush make MEASURES panic (finding F58: the panic escapes Stop)? *)
 let cep_flush_panics kind (e : cepst) = kind = "cepmeas" && e.c_open && e.c_lastp
 
 (* the engine state before each op of a script (pure replay of the rows, Stop flushes) *)
@@ -140,7 +140,7 @@ let run_script ?(immediate = false) kind strat workers poolcap (sinks : string l
           let ch = (match th.t_pc, op.[0] with
                     | SyBegin, _ -> if classes.(i) = Pass then 0 else 1
                     | TrigCall, _ -> 1
-                    | StFlush, _ -> if cep_flush_panics kind cepe then 1   (* F57: the flush panics, nothing is delivered *)
+                    | StFlush, _ -> if cep_flush_panics kind cepe then 1   (* F58: the flush panics, nothing is delivered *)
                                   else if cepe.c_open then (cepe.c_open <- false; 0) else 1   (* Stop flushes the open match *)
                     | _ -> 0) in
           if not (try_step tid ch) then settle 10000;
